@@ -628,7 +628,7 @@ def install(E):
             if self.imode != "bv":
                 raise Inconclusive("fp mode needs bv integers")
             return SV(z3.fpToSBV(z3.RTZ(), e, z3.BitVecSort(n)) if signed else z3.fpToUBV(z3.RTZ(), e, z3.BitVecSort(n)))
-        t = z3.If(e >= 0, z3.ToInt(e), -z3.ToInt(-e))
+        t = z3.simplify(z3.If(e >= 0, z3.ToInt(e), -z3.ToInt(-e)))
         if signed:
             rng = z3.And(e > -RV(_M(n - 1)) - 1, e < RV(_M(n - 1)))
         else:
